@@ -12,5 +12,5 @@ def run(tier, seed):
         "trusted arithmetic fact: bvsmul no-overflow predicate <=> the 128-bit product of two sign-extended int64 fits int64 (used to keep the 128-bit multiplier out of the queries)",
     ]
     c.run_unit("internal/constant", "constant")
-    c.run_unit("internal/types", "types")
+    c.run_unit("internal/types", "types", harnesses=["VfH_repr"])
     return c.finish()
